@@ -139,6 +139,13 @@ fn typst_piece() -> BoxedStrategy<String> {
         1 => (paragraph(), paragraph()).prop_map(|(a, b)| format!("/ {a}: {b}")),
         1 => paragraph().prop_map(|p| format!("#let x = \"{p}\"")),
         1 => paragraph().prop_map(|p| format!("#let x = \"{p}")),
+        // string literals with escapes: the literal's source text and its value differ in length
+        2 => (paragraph(), paragraph(), sel_str(&["\\\"", "\\n", "\\t", "\\u{2014}", "\\\\", "\\u{1F600}", "\\r"]), sel_str(&["#let x = ", "#f(", "#text(", "#(a: ", ""]))
+            .prop_map(|(a, b, esc, head)| {
+                let tail = match head.as_str() { "#f(" | "#text(" | "#(a: " => ")", _ => "" };
+                let hash = if head.is_empty() { "#" } else { "" };
+                format!("{head}{hash}\"{a} {esc}{b}{esc} twice\"{tail}")
+            }),
         1 => paragraph().prop_map(|p| format!("#text(fill: red)[{p}]")),
         1 => paragraph().prop_map(|p| format!("#text(fill: red)[{p}")),
         1 => paragraph().prop_map(|p| format!("#figure(caption: [{p}], image(\"an imge.png\"))")),
